@@ -153,7 +153,12 @@ def build_sample(spec):
                 max_size = None
                 matching = True
             else:
-                it = s.sample(deg_seq=np.array(deg_seq), dim_seq=dict(dim_seq))
+                if spec.get("first_call"):
+                    # an earlier call on the same sampler (realisable sequences) must not influence this one
+                    dq0, ds0 = SEQS[spec["first_call"]]
+                    next(s.sample(deg_seq=np.array(dq0 + [0] * (N - len(dq0))), dim_seq=dict(ds0)))
+                it = s.sample(deg_seq=np.array(deg_seq), dim_seq=dict(dim_seq),
+                              allow_rescaling=bool(spec.get("rescale", False)))
                 deg0 = {i: dg for i, dg in enumerate(deg_seq)}
                 sizes0 = dict(dim_seq)
                 n0 = sum(dim_seq.values())
@@ -239,6 +244,12 @@ def obligations(tier, seed):
                 "weights": "pos", "max_size": 2})
     out.append({"family": "seq", "mode": "seq", "seq": "ok4", "burn": 0, "thin": 0, "samples": 1, "accept": "real",
                 "weights": "zero", "max_size": 2})
+    for name in ("bad1", "bad3"):
+        out.append({"family": "seq", "mode": "seq", "seq": name, "burn": 0, "thin": 0, "samples": 1, "accept": "real",
+                    "weights": "pos", "max_size": max(SEQS[name][1]), "first_call": "ok1"})
+    for name in ("ok1", "ok2"):
+        out.append({"family": "seq", "mode": "seq", "seq": name, "burn": 0, "thin": 0, "samples": 1, "accept": "real",
+                    "weights": "pos", "max_size": max(SEQS[name][1]), "rescale": True})
     out.append({"family": "seed"})
     return out
 
